@@ -38,6 +38,10 @@ func checkC02(c *Check) {
 	if pc := processInvoke(P, R); c.Anchor("C02.R5", "Handler.Process invocation in Check", pc != nil) {
 		handlerBuiltPerCheck(c, "C02.R5", R.CheckEntry, pc)
 	}
+	// … whose endpoints and keys come from the filter's own discovery document, fetched over the filter's own
+	// transport (TLS settings of another filter would let an unauthenticated peer answer the token request)
+	discoveryCacheKeyRule(c, "C02.R5")
+	transportIsOwn(c, "C02.R5")
 }
 
 // c02R5: the key set handed to the validator is the *requesting filter's* key set: every value returned
